@@ -58,7 +58,10 @@ def case_st(draw):
             reqs.append({"path": draw(pathspell.hostile_paths()), "labels": ["hostile"], "kind": "hostile"})
         else:
             reqs.append({"path": "/" + draw(st.text(max_size=20)), "labels": ["random"], "kind": "random"})
-    return {"tree": spec, "listing": draw(st.booleans()), "small_max": draw(st.integers(0, 4)) == 0, "reqs": reqs}
+    # phase 2: some inside entries are replaced by links to the outside, then the same spellings are requested again
+    inside = [n["p"] for n in spec["nodes"] if n["t"] in ("file", "dir")]
+    swaps = draw(st.lists(st.sampled_from(inside), max_size=2, unique=True)) if inside and draw(st.booleans()) else []
+    return {"tree": spec, "listing": draw(st.booleans()), "small_max": draw(st.integers(0, 4)) == 0, "reqs": reqs, "swaps": swaps}
 
 
 def run_tree(case: dict):
@@ -97,61 +100,94 @@ def run_tree(case: dict):
             if all(pathspell.literal_ok(s) for s in segs):
                 reqs.append({"path": "/" + "/".join(segs), "labels": ["complete:literal"], "kind": "complete", "rel": rel})
         stats = {"served": 0, "rejected_url": 0, "non2x": 0, "listing": 0, "raised": 0, "complete": 0, "escape_attempts": 0}
-        for rq in reqs:
-            url = "gemini://localhost" + rq["path"]
-            try:
-                request = GeminiRequest.from_line(url)
-            except ValueError:
-                stats["rejected_url"] += 1
-                if rq["kind"] == "complete":
-                    return viol("servable-file-unrequestable", f"{rq['rel']!r}: URL {url[:120]!r} rejected")
-                continue
-            try:
-                resp = handler.handle(request)
-                status, meta, body = resp.status, resp.meta, resp.body
-            except Exception as e:  # the protocol turns this into a 40 whose meta echoes str(e)
-                stats["raised"] += 1
-                status, meta, body = 40, f"Server error: {e}", None
-            if isinstance(body, bytes):
-                body_s = body.decode("utf-8", "replace")
-            else:
-                body_s = body or ""
-            sents = SENT_RE.findall(meta + "\n" + body_s)
-            rels = [bytes.fromhex(h).decode("utf-8", "surrogateescape") for h in sents]
-            outside = [r for r in rels if not r.startswith(inside_prefix)]
-            lab = rq["labels"]
-            if any(x in lab for x in ("aim-outside", "above-root-and-back", "sibling", "hostile", "dotdot", "enc-dot")):
-                stats["escape_attempts"] += 1
-            if outside:
-                return viol("outside-content-revealed", f"path {rq['path']!r} -> status {status}, content of {outside[0]!r} (listing={case['listing']})",
-                            path=rq["path"])
-            if 20 <= status <= 29:
-                if body_s.startswith("# Index of"):
-                    stats["listing"] += 1
-                    names = sorted(set(re.findall(r"^=> \S+ (.*?)(?:/| \([^()]*\))$", body_s, re.M)))
-                    # must be the listing of a directory inside the root
-                    listed = [ln for ln in body_s.split("\n") if ln.startswith("=> ") and not ln.endswith(" ..")]
-                    cands = [d for d, ents in dir_entries.items() if len(ents) == len(listed)
-                             and all(any(e in ln for ln in listed) for e in ents)]
-                    ins = [d for d in cands if d == root or d.startswith(inside_prefix)]
-                    if cands and not ins:
-                        return viol("outside-directory-listed", f"path {rq['path']!r} lists {cands[0]!r}", path=rq["path"])
+        def run_requests(reqs, phase):
+            for rq in reqs:
+                url = "gemini://localhost" + rq["path"]
+                try:
+                    request = GeminiRequest.from_line(url)
+                except ValueError:
+                    stats["rejected_url"] += 1
+                    if rq["kind"] == "complete":
+                        return viol("servable-file-unrequestable", f"{rq['rel']!r}: URL {url[:120]!r} rejected")
+                    continue
+                try:
+                    resp = handler.handle(request)
+                    status, meta, body = resp.status, resp.meta, resp.body
+                except Exception as e:  # the protocol turns this into a 40 whose meta echoes str(e)
+                    stats["raised"] += 1
+                    status, meta, body = 40, f"Server error: {e}", None
+                if isinstance(body, bytes):
+                    body_s = body.decode("utf-8", "replace")
                 else:
-                    stats["served"] += 1
-                    # exactly the text of one inside regular file
-                    match = [r for r, d in files if r.startswith(inside_prefix) and d.decode("utf-8", "replace") == body_s]
-                    if not match:
-                        return viol("2x-body-is-not-an-inside-file", f"path {rq['path']!r} -> {body_s[:80]!r}", path=rq["path"])
-            else:
-                stats["non2x"] += 1
-                if rels:
-                    return viol("content-in-failure-response", f"path {rq['path']!r} -> {status} {meta[:80]!r}", path=rq["path"])
-            if rq["kind"] == "complete":
-                stats["complete"] += 1
-                want = by_rel[rq["rel"]].decode("utf-8")
-                if status != 20 or body_s != want:
-                    return viol("inside-file-not-served", f"{rq['rel']!r} requested as {rq['path']!r} ({rq['labels'][0]}) -> {status} {meta[:60]!r}",
-                                spelling=rq["labels"][0], path=rq["path"])
+                    body_s = body or ""
+                sents = SENT_RE.findall(meta + "\n" + body_s)
+                rels = [bytes.fromhex(h).decode("utf-8", "surrogateescape") for h in sents]
+                outside = [r for r in rels if not r.startswith(inside_prefix)]
+                lab = rq["labels"]
+                if any(x in lab for x in ("aim-outside", "above-root-and-back", "sibling", "hostile", "dotdot", "enc-dot")):
+                    stats["escape_attempts"] += 1
+                if outside:
+                    return viol("outside-content-revealed", f"path {rq['path']!r} -> status {status}, content of {outside[0]!r} (listing={case['listing']})",
+                                path=rq["path"])
+                if 20 <= status <= 29:
+                    if body_s.startswith("# Index of"):
+                        stats["listing"] += 1
+                        names = sorted(set(re.findall(r"^=> \S+ (.*?)(?:/| \([^()]*\))$", body_s, re.M)))
+                        # must be the listing of a directory inside the root
+                        listed = [ln for ln in body_s.split("\n") if ln.startswith("=> ") and not ln.endswith(" ..")]
+                        cands = [d for d, ents in dir_entries.items() if len(ents) == len(listed)
+                                 and all(any(e in ln for ln in listed) for e in ents)]
+                        ins = [d for d in cands if d == root or d.startswith(inside_prefix)]
+                        if cands and not ins:
+                            return viol("outside-directory-listed", f"path {rq['path']!r} lists {cands[0]!r}", path=rq["path"])
+                    else:
+                        stats["served"] += 1
+                        # exactly the text of one inside regular file
+                        match = [r for r, d in files if r.startswith(inside_prefix) and d.decode("utf-8", "replace") == body_s]
+                        if not match:
+                            return viol("2x-body-is-not-an-inside-file", f"path {rq['path']!r} -> {body_s[:80]!r}", path=rq["path"])
+                else:
+                    stats["non2x"] += 1
+                    if rels:
+                        return viol("content-in-failure-response", f"path {rq['path']!r} -> {status} {meta[:80]!r}", path=rq["path"])
+                if rq["kind"] == "complete":
+                    stats["complete"] += 1
+                    want = by_rel[rq["rel"]].decode("utf-8")
+                    if status != 20 or body_s != want:
+                        return viol("inside-file-not-served", f"{rq['rel']!r} requested as {rq['path']!r} ({rq['labels'][0]}) -> {status} {meta[:60]!r}",
+                                    spelling=rq["labels"][0], path=rq["path"])
+
+            return None
+
+        v1 = run_requests(reqs, 1)
+        if v1 is not None:
+            return v1
+        if case.get("swaps"):
+            import shutil
+
+            Sb = os.fsencode(S)
+            for relp in case["swaps"]:
+                full = os.path.join(Sb, relp.encode("utf-8", "surrogateescape"))
+                if not os.path.lexists(full):
+                    continue
+                if os.path.isdir(full) and not os.path.islink(full):
+                    shutil.rmtree(full)
+                    os.symlink(os.path.join(Sb, b"outside"), full)
+                else:
+                    os.unlink(full)
+                    os.symlink(os.path.join(Sb, b"outside", b"out.gmi"), full)
+            # what is inside now (the oracle data is recomputed for the changed tree)
+            files[:] = fsgen.all_files(S)
+            dir_entries.clear()
+            for dirpath, dirnames, filenames in os.walk(os.fsencode(S), followlinks=False):
+                rel = os.path.relpath(dirpath, os.fsencode(S)).decode("utf-8", "surrogateescape")
+                dir_entries[rel] = sorted(n.decode("utf-8", "surrogateescape") for n in dirnames + filenames)
+            stats["phase2"] = 1
+            v2 = run_requests([r for r in reqs if r["kind"] != "complete"], 2)
+            if v2 is not None:
+                v2.detail = "after replacing " + repr(case["swaps"]) + " by links to the outside: " + v2.detail
+                v2.info["phase2"] = True
+                return v2
         return ok(**stats, nreq=len(reqs))
     finally:
         fsgen.destroy(S)
